@@ -5,6 +5,7 @@
   answer the op `mpn_rootrem_basecase` of the differential run.
 -/
 import MpirProofs.Lemmas.RootremTop
+import MpirProofs.Lemmas.SqrtremLimb
 namespace Mpir.Rootrem
 open Mpir Mpir.Root Mpir.Gen.SqrtTabs
 
@@ -170,5 +171,60 @@ example : rootrem ((2 ^ 200 + 12345) ^ 2 + 2 ^ 200) 2 false =
       some (2 ^ 200 + 12345, ((2 ^ 200 + 12345) ^ 2 + 2 ^ 200) * B ^ 2) ∧
     rootrem ((2 ^ 200 + 12345) ^ 2 + 2 ^ 200) 2 true = some (2 ^ 200 + 12345, 2 ^ 200) ∧
     rootrem ((2 ^ 200 + 12345) ^ 2) 2 false = some (2 ^ 200 + 12345, 0) := by decide +kernel
+
+/-! ## mpn_dc_sqrtrem at limb level (sqrtrem.c:245-293) -/
+
+/-- mpn_dc_sqrtrem (sp, np, n) ON LIMB BUFFERS (`Model/SqrtremLimb.lean`: every buffer reduced modulo `B^(its size)`, every
+    mpn call returning its borrow / carry / top quotient limb, the C's `int c, b` and `mp_limb_t q`) for every `n ≥ 1` and
+    every normalised operand `B^(2n)/4 ≤ N < B^(2n)`:  `{sp, n} = ⌊√N⌋`, `{np, n}` = the low `n` limbs of the remainder
+    `N − ⌊√N⌋²` and the returned `c` its carry limb (0 or 1).  Inside (Lemmas/SqrtremLimb.lean, one lemma per statement
+    group): the pre-subtraction `if (q != 0) mpn_sub_n` never wraps (`divStep_spec`); the quotient of mpn_intdivrem is
+    `q·B^l + {sp, l}` with `q ≤ 2`; halving moves bit 0 of `q` into bit 63 of `sp[l-1]` where the OR is an addition
+    (`halfStep_spec`), and afterwards `q = 1` forces `{sp, l} = 0`, so subtracting only `{sp, l}²` and `q` at `B^(2l)` is the
+    full square (`subSquare_core`); the borrow `b ∈ {0, 1, 2}` reaches `c` directly (`l = h`) or through the single limb
+    `np[2l]` (`h = l + 1`); `c < 0` iff the true remainder is negative, and the correction `+ 2·S − 1` / `S − 1` with its
+    carries `mpn_addmul_1 + 2q`, `mpn_sub_1` restores `c·B^n + {np, n} = N − S²` with `S = ⌊√N⌋ < B^n` even when
+    `mpn_add_1` had carried out of `{sp + l, h}` (`fixup_spec`).  Base case: the word-level mpn_sqrtrem2 theorem, whose
+    returned `cc` is now proved non-negative (`sqrtrem2_exI`). -/
+theorem mpn_dc_sqrtrem_limb_spec (n N : Nat) (hn : 0 < n) (h1 : B ^ (2 * n) ≤ 4 * N) (h2 : N < B ^ (2 * n)) :
+    SqrtL.dcL n n N = (Nat.sqrt N, (N - Nat.sqrt N * Nat.sqrt N) % B ^ n,
+      (((N - Nat.sqrt N * Nat.sqrt N) / B ^ n : Nat) : Int)) ∧
+    (N - Nat.sqrt N * Nat.sqrt N) / B ^ n ≤ 1 ∧ Nat.sqrt N < B ^ n := by
+  have e := SqrtL.dcL_eq n n N hn (Nat.le_refl _) h1 h2
+  have hv : dcSqrtremF n n N = (Nat.sqrt N, N - Nat.sqrt N * Nat.sqrt N) := by
+    obtain ⟨e1, r1⟩ := dcSpec n N hn h1 h2
+    obtain ⟨d1, d2⟩ := sqrt_of_rem e1 r1
+    exact Prod.ext d1 d2
+  rw [hv] at e
+  have hs : Nat.sqrt N < B ^ n := by
+    rw [Nat.sqrt_lt, ← pow_two, ← pow_mul, Nat.mul_comm]; exact h2
+  refine ⟨e, ?_, hs⟩
+  have hr : N - Nat.sqrt N * Nat.sqrt N ≤ 2 * Nat.sqrt N := by
+    have := Nat.sqrt_le_add N; omega
+  have hlt : (N - Nat.sqrt N * Nat.sqrt N) / B ^ n < 2 :=
+    (Nat.div_lt_iff_lt_mul (pow_pos B_pos _)).mpr (by omega)
+  omega
+
+-- non-vacuity: n = 3 (l = 1, h = 2: the borrow through np[2l]) with the carry limb set; n = 2 on B^4 − 1
+example : SqrtL.dcL 3 3 (B ^ 6 - 1) = (B ^ 3 - 1, (2 * (B ^ 3 - 1)) % B ^ 3, 1) ∧
+    SqrtL.dcL 2 2 (B ^ 4 - 1) = (B ^ 2 - 1, B ^ 2 - 2, 1) ∧ SqrtL.dcL 2 2 (B ^ 4 / 4) = (B ^ 2 / 2, 0, 0) := by
+  decide +kernel
+
+/-- mpn_sqrtrem on an operand with an even number `2·tn` of limbs and a normalised top limb — the branch that passes the
+    operand unshifted to mpn_dc_sqrtrem and stores its return value as `rp[tn]` (sqrtrem.c:362-368), limb level:
+    root `⌊√N⌋` in `tn` limbs, `{rp, tn + 1} = N − ⌊√N⌋²`. -/
+theorem mpn_sqrtrem_even_limb_spec (tn N : Nat) (hn : 0 < tn) (h1 : B ^ (2 * tn) ≤ 4 * N) (h2 : N < B ^ (2 * tn)) :
+    SqrtL.sqrtremEvenL tn N = (Nat.sqrt N, ((N - Nat.sqrt N * Nat.sqrt N : Nat) : Int)) := by
+  obtain ⟨e, -, -⟩ := mpn_dc_sqrtrem_limb_spec tn N hn h1 h2
+  unfold SqrtL.sqrtremEvenL
+  rw [e]
+  dsimp only
+  congr 1
+  have := Nat.div_add_mod (N - Nat.sqrt N * Nat.sqrt N) (B ^ tn)
+  rw [← Int.natCast_mul, ← Int.natCast_add]
+  congr 1
+  rw [Nat.mul_comm]; exact this
+
+example : SqrtL.sqrtremEvenL 2 (B ^ 4 - 1) = (B ^ 2 - 1, ((2 * (B ^ 2 - 1) : Nat) : Int)) := by decide +kernel
 
 end Mpir.Rootrem
